@@ -28,10 +28,8 @@ class MgrProp(core.Prop):
             "theorems quantify over every SimIface whose getters satisfy the stated frame conditions; the differential "
             "test drives the scripted stub family only",
             "a hang of the real code is observed through a 5 s watchdog",
-            "example-mgr: a call in which the SIMULATION itself raises (a reset that finds no cell; the steps of the "
-            "findings C02-E2 / C02-E3) ends the history before that call (the manager model's simulation is total; the "
-            "direct-call stream covers those calls); MultiMazeNavigationSim: the model's self-test is specC01 without the "
-            "ledger clause (C01_MultiMaze_partial), the implementation is judged by all of specC01 (finding C01-E1)",
+            "example-mgr: a call in which the SIMULATION itself raises (a reset that finds no cell) ends the history "
+            "before that call (the manager model's simulation is total; the direct-call stream covers those calls)",
         ] + (p_examples.ASSUMPTIONS if pid == "C01" else [])
 
     # -- cases ------------------------------------------------------------------------------
@@ -93,19 +91,13 @@ class MgrProp(core.Prop):
         if case.desc.get("stream") == "example-mgr":
             return p_examples.mgr_interpret(reply, case, self.spec_idx)
         if case.desc.get("stream") == "example-modelled":
-            return p_examples.interpret(reply, case, ledger=True)
+            return p_examples.interpret(reply, case)
         trace, m1, m7, i1, i7 = reply
         ms = [m1, m7][self.spec_idx]
         is_ = [i1, i7][self.spec_idx]
         if is_ not in (0, 1):
             raise ValueError("driver could not parse the implementation trace")
         return core.Verdict(wire.enc(trace), ms == 1, is_ == 1)
-
-    def finding_matchers(self):
-        if self.pid != "C01":
-            return {}
-        return {"C01-E1": p_examples.c01_e1, "C02-E2": p_examples.array_truth_finding,
-                "C02-E3": p_examples.victim_ledger_finding, "C09-A1": p_examples.position_alias_finding}
 
     def shrink_candidates(self, desc):
         if desc.get("stream") == "example-mgr":
